@@ -8,6 +8,7 @@ import (
 	ipfslog "berty.tech/go-ipfs-log"
 	"berty.tech/go-ipfs-log/enc"
 	"berty.tech/go-ipfs-log/entry"
+	"berty.tech/go-ipfs-log/iface"
 	"berty.tech/go-ipfs-log/internal/vx"
 	"berty.tech/go-ipfs-log/io/cbor"
 	"github.com/ipfs/go-cid"
@@ -27,8 +28,16 @@ func H_C18() {
 	nNext := vx.Choice("nNext", 3)
 	nRefs := vx.Choice("nRefs", 3)
 	next, refs := cids(10, nNext), cids(20, nRefs)
+	var copts *iface.CreateEntryOptions
+	switch vx.Choice("createOpts", 3) {
+	case 1:
+		copts = &iface.CreateEntryOptions{}
+	case 2:
+		copts = &iface.CreateEntryOptions{PreSigned: true}
+		vx.Sig("opts=PreSigned")
+	}
 	e, err := entry.CreateEntryWithIO(ctx, api, ids[0], &entry.Entry{Payload: vx.Bytes("payload", vx.Param("L", 1)), LogID: "X", Next: next, Refs: refs,
-		Clock: entry.NewLamportClock(ids[0].PublicKey, 1+vx.Choice("time", 2))}, nil, ioW)
+		Clock: entry.NewLamportClock(ids[0].PublicKey, 1+vx.Choice("time", 2))}, copts, ioW)
 	vx.Assert("C18", err == nil && e != nil, "creating an entry with a link key succeeds")
 	if err != nil {
 		return
@@ -64,6 +73,10 @@ func H_C18() {
 			return
 		}
 		vx.Assert("C18", sameCids(d.GetNext(), next) && sameCids(d.GetRefs(), refs), "a reader with the same key recovers identical predecessor and reference lists")
+		if copts != nil && copts.PreSigned {
+			vx.Cover("pre-signed-block") // written without its signature by design: nothing to verify or merge
+			return
+		}
 		vx.Assert("C18", d.Verify(ids[0].Provider, ioR) == nil, "a reader with the same key can verify the entry")
 		src := newLogOpt(api, ids[0], &ipfslog.LogOptions{ID: "X", IO: ioR, Entries: orderedMapOf([]ipfslog.Entry{d})})
 		dst := newLogOpt(api, ids[1], &ipfslog.LogOptions{ID: "X", IO: ioR})
